@@ -196,6 +196,24 @@ class Check(PropertyCheck):
             for what, a, b, want in pairs:
                 if (a == b) != want or (b == a) != want or (a != b) == want:
                     res.append(("eq-structure", f"instances ({what}): == is {a == b}, content equality is {want}"))
+            # schedules of an instance without labels (every operation keeps the default ids): start times and machine
+            # assignment are content all the same
+            def raw_schedule(shift, swap):
+                a, b, c2 = jsl.Operation([0, 1], 1), jsl.Operation(0, 2), jsl.Operation(1, 3)
+                inst = jsl.JobShopInstance([[a], [b, c2]], set_operation_attributes=False)
+                m_a = 1 if swap else 0
+                lists = [[], []]
+                lists[m_a].append(jsl.ScheduledOperation(a, shift, m_a))
+                lists[0].append(jsl.ScheduledOperation(b, 5, 0))
+                lists[1].append(jsl.ScheduledOperation(c2, 7, 1))
+                return jsl.Schedule(inst, lists)
+            sh = r.randint(1, 3)
+            for what, a, b, want in [("same content", raw_schedule(0, False), raw_schedule(0, False), True),
+                                     ("start time of one operation differs", raw_schedule(0, False), raw_schedule(sh, False), False),
+                                     ("machine assignment of one operation differs", raw_schedule(0, False), raw_schedule(0, True), False)]:
+                if (a == b) != want or (b == a) != want or (a != b) == want:
+                    res.append(("eq-raw-schedule", f"schedules of an instance built with set_operation_attributes=False ({what}): "
+                                f"== is {a == b}, content equality is {want}"))
             # user subclasses of Operation that declare their own __slots__ (a due date, say): machines, duration and
             # position are still part of the content
 
